@@ -29,6 +29,9 @@ var extras = map[string]ruleFn{
 		depTableRules(c, r, "C02.R14", "by-type-pointer", "by-type-interface", "no-error", "independent", "unshared")
 		// "cycles of any length ... succeed": what a processor of the library answers when asked for an early reference
 		earlyReferenceImplRules(c, r, "C02.R15")
+		// "every required injection point populated": a point is one only if the field scan records its field, wherever
+		// in the struct (directly, or in an embedded struct of whatever type) it is declared
+		fieldScanRules(c, r, "C02.R19")
 		// "reported as an error (or left empty when optional)": what the narrowing stage does with a point nothing qualifies for
 		furtherRules(c, r, "C02.R16", "optional-cleared", "required-error")
 		if l := findLifecycle(c, r, "C02.R12"); l != nil {
@@ -66,6 +69,11 @@ var extras = map[string]ruleFn{
 				if row == "error" {
 					return "C03.R8"
 				}
+				// "every holder sees the one version the container finally publishes": what a holder is given is what
+				// the accessor hands out for the name, for every point, whatever the field holds already
+				if row == "from-accessor" {
+					return "C03.R13"
+				}
 				return ""
 			})
 		}
@@ -93,8 +101,14 @@ var extras = map[string]ruleFn{
 	},
 	// "leaves the field untouched when it is optional": nothing but Inject / SetValue / the logger processor writes fields
 	"C07": func(c *core.Ctx, r *core.Report) {
+		// the stages that look the named component up and narrow take part for every holder
+		stageOptInRules(c, r, "C07.R19", "dep", "further")
 		// the tag value (the requested name) is the text up to the first top-level comma
 		tagRules(c, r, "C07.R11", "value", "arguments", "required")
+		// "specifies a component name": the name may be written with placeholders, which the placeholder stage
+		// resolves in every tag (whatever the kind of property), nested ones and those in configured values included
+		textStageRules(c, r, "C07.R18", "quote")
+		replaceAllTable(c, r, "C07.R18")
 		// every processor sees every property of the holder: the list handed to one is not the list of another
 		ownListRules(c, r, "C07.R16")
 		// the named candidate survives the narrowing (nothing but self, qualifier and the single-value preference removes one)
@@ -136,6 +150,9 @@ var extras = map[string]ruleFn{
 		fieldScanRules(c, r, "C09.E4")
 		propsStageRules(c, r, "C09.E4")
 		furtherRules(c, r, "C09.E3", "optional-cleared", "required-error")
+		// the required check sees a point only if the stage that makes it is handed it: every processor receives the
+		// definition's properties as they are when its turn comes, in a list of its own
+		ownListRules(c, r, "C09.E15")
 		writerRules(c, r, "C09.E3")
 		// "an initialization callback reports an error -> Run returns an error": whatever the callback returns beside it
 		// (and every initialization callback the component declares is invoked, so that it can report one)
@@ -168,6 +185,8 @@ var extras = map[string]ruleFn{
 	// "only components whose declared qualifier is in the requested set": qualifier texts are compared exactly
 	// "a unique component without a custom name wins": which components count as custom-named
 	"C08": func(c *core.Ctx, r *core.Report) {
+		// the stages that collect and narrow candidates take part for every holder
+		stageOptInRules(c, r, "C08.R10", "dep", "further")
 		// narrowing runs for every holder on every creation: the property stage calls every processor each time
 		propsStageRules(c, r, "C08.R9")
 		// "a unique Primary always wins": the Primary test answers per type; user post-processors meet the built-in stages at their documented positions
@@ -219,7 +238,7 @@ var extras = map[string]ruleFn{
 	// "every registered runner is invoked": the runner collection is complete
 	"C13": func(c *core.Ctx, r *core.Report) {
 		// "only after every eagerly created component has finished initialization": an initialization that did not complete is an error
-		initErrorRules(c, r, "C13.R9")
+		initErrorRules(c, r, "C13.R9", "sequence") // (sequence: finished means every initialization callback the component has was run)
 		markerTypeRules(c, r, "C13.R7")
 		runEntryRules(c, r, "C13.R8")
 		globalAppendRules(c, r, "C13.R8")
@@ -229,6 +248,7 @@ var extras = map[string]ruleFn{
 		// "every registered application runner": each registered name keeps a definition of its own, so it is created
 		// ... and is enumerated exactly once by the lookup that fills the runner collection
 		definitionRegistryTables(c, r, "C13.R10", "C13.R10")
+		definitionNameRules(c, r, "C13.R10")
 		componentMapCompleteRules(c, r, "C13.R11")
 	},
 	// "every registered closer is closed exactly once": the closer collection is complete and duplicate-free
@@ -242,6 +262,10 @@ var extras = map[string]ruleFn{
 		componentMapCompleteRules(c, r, "C14.R10")
 		// the closer collection is a slice point: it receives every qualifying candidate
 		narrowRules(c, r, "C14.R11", "slice-exact", "no-panic")
+		// "every registered closer ... exactly once": each registered name keeps a definition of its own, and the lookup
+		// that fills the closer collection lists each definition once, however often it was stored
+		definitionRegistryTables(c, r, "C14.R12", "C14.R12")
+		definitionNameRules(c, r, "C14.R12")
 	},
 	// "the others in the order they were added": the ordering helper keeps unordered participants in place;
 	// what was merged or set last is what lookups see
@@ -254,6 +278,8 @@ var extras = map[string]ruleFn{
 	},
 	// "replaced by the configured value when one is present": lookups see the configuration as it is now
 	"C16": func(c *core.Ctx, r *core.Report) {
+		// the placeholder stage takes part for every component
+		stageOptInRules(c, r, "C16.R15", "quote")
 		textStageRules(c, r, "C16.R4", "quote", "expr")
 		// prop:"K" is the documented alias of value:"${K}", nested placeholders in K included
 		hs := shorthandHandlers(c)
@@ -282,6 +308,8 @@ var extras = map[string]ruleFn{
 	},
 	// "the field receives the expression's result": binding writes a fresh value
 	"C18": func(c *core.Ctx, r *core.Report) {
+		// the stages an expression passes through take part for every component, wherever its tags are declared
+		stageOptInRules(c, r, "C18.R15", "quote", "expr", "value", "validate")
 		// "start-up fails exactly when the bound value violates": a failing dependency creation fails its holder (also an optional one), so the verdict is not lost on the way
 		if l := findLifecycle(c, r, "C18.R10"); l != nil {
 			populateRules(c, r, l, func(row string) string {
@@ -348,10 +376,15 @@ var extras = map[string]ruleFn{
 		exposerRowRules(c, r, "C01.R13", "lookup-after-init", "stale-detected")
 	},
 	"C06": func(c *core.Ctx, r *core.Report) {
+		// the stages that collect and narrow candidates take part for every holder
+		stageOptInRules(c, r, "C06.R15", "dep", "further")
 		// completeness: every processor that collects candidates runs for every holder, and every component has a definition
 		chainActiveRules(c, r, "C06.R8")
 		propsStageRules(c, r, "C06.R8")
 		tagScanRules(c, r, "C06.R9")
+		// "for the func tag those that expose the requested method": the method name and the requested results are
+		// what the tag says - an argument written with an empty value has the one value ""
+		tagRules(c, r, "C06.R14", "value", "arguments")
 		fieldScanRules(c, r, "C06.R9")
 		// "receives every such component": every registered name has a definition of its own to be enumerated
 		definitionRegistryTables(c, r, "", "C06.R10")
@@ -380,6 +413,8 @@ var extras = map[string]ruleFn{
 		refiled(c, r, "C12.R8", func(sub *core.Report) { c03Flags(c, sub) })
 	},
 	"C17": func(c *core.Ctx, r *core.Report) {
+		// the configuration stages take part for every component
+		stageOptInRules(c, r, "C17.R15", "quote", "value", "prefix")
 		// "string values arrive unchanged": the file and raw loaders hand back exactly the bytes they were given
 		loaderIdentityRules(c, r, "C17.R11")
 		// the three binding paths read one configuration and see every tagged field
@@ -403,6 +438,16 @@ var extras = map[string]ruleFn{
 		// "the published instance is the only thing ever returned for that name": publication refuses a version other
 		// than the early reference already handed out by looking at who received it - every holder is on that record
 		injectRules(c, r, "C04.R5", "slice", "single")
+		// "all lookups of its name observe one and the same early reference": the lookups the container itself makes
+		// while it wires a holder go through the accessor (and with it the caches), also for a name in creation
+		if l := findLifecycle(c, r, "C04.R6"); l != nil {
+			populateRules(c, r, l, func(row string) string {
+				if row == "from-accessor" {
+					return "C04.R6"
+				}
+				return ""
+			})
+		}
 	},
 	"C20": func(c *core.Ctx, r *core.Report) {
 		// components of one type scanned concurrently share nothing: every component gets properties of its own
